@@ -100,8 +100,14 @@ bool Model::visible(const Peer &p, const Elem &e) const {
 }
 
 bool Model::decision_pending() const {
-	for (auto &d : decisions) if (d.state == 0) return true;
+	for (auto &d : decisions) if (d.state == 0 && !d.silent_refusal && !d.silent_accept) return true;
 	return false;
+}
+
+std::vector<int> Model::silent_decisions() const {
+	std::vector<int> r;
+	for (size_t i = 0; i < decisions.size(); i++) if (decisions[i].state == 0 && (decisions[i].silent_refusal || decisions[i].silent_accept)) r.push_back((int)i);
+	return r;
 }
 
 int Model::pending_routed() const {
@@ -109,7 +115,7 @@ int Model::pending_routed() const {
 }
 
 bool Model::has_unbound_routed() const {
-	for (auto &r : routed) if ((r.state == 0 || r.state == 5) && r.timerfd < 0) return true;
+	for (auto &r : routed) if (r.state == 0 && r.timerfd < 0) return true;
 	return false;
 }
 
@@ -243,8 +249,7 @@ bool Model::do_add(int c, const JV &req, const JV &params) {
 		Exp x; x.kind = Exp::RESP; x.rk = Exp::R_EITHER; x.id = *id; x.prop = "C04"; x.why = "add at capacity"; x.group = group_ctr; x.rank = 1; x.decision = d;
 		host->expect(c, x);
 	} else {
-		// no response will tell: assume accepted unless the daemon stays silent towards subscribers; resolve optimistically
-		resolve_decision(d, true);
+		host->harness_error("add without id at the capacity bound is not decidable from outside; the generator must not produce it");
 	}
 	return true;
 }
@@ -321,6 +326,8 @@ bool Model::do_setcall(int c, const JV &req, const JV &params, bool is_call) {
 	int d = (int)decisions.size();
 	Decision dec; dec.what = "route at capacity";
 	dec.commit = [this, ref](bool ok) { if (!ok) { routed[ref].state = 5; host->probe("routing_table_full"); } };
+	dec.silent_refusal = !r.has_id || !host->observable(c); // a caller without id (or one that is gone) is told nothing: absence of the routed frame is the refusal
+	if (!host->observable(e.owner) && host->observable(c) && r.has_id) { dec.silent_refusal = false; dec.silent_accept = true; } // owner's stream cannot be observed: absence of a refusal is the acceptance
 	decisions.push_back(dec);
 	x.optional = true; x.decision = d;
 	host->expect(e.owner, x);
@@ -543,7 +550,7 @@ void Model::on_timer_armed(int fd, uint64_t ns) {
 	for (int i = (int)routed.size() - 1; i >= 0; i--) {
 		Routed &r = routed[i];
 		if (r.timerfd >= 0) break;
-		if (r.state != 0 && r.state != 5) continue;
+		if (r.state != 0) continue;
 		r.timerfd = fd;
 		int64_t diff = (int64_t)ns - (int64_t)r.timeout_ns;
 		if (diff < -1000 || diff > 1000000)
